@@ -363,6 +363,19 @@ def p6(ctx):
             ctx.check(ok, "symmetries-after-reinsert:" + C.fkey(h), "re-insert is followed by the self-symmetry derivation on every path",
                       "in %s the re-inserted node is not examined for self-symmetries on some path to return — symmetries that stem from symmetric children are never derived" % C.short(hid),
                       where_of(h, c.bb))
+            # ... of the node that was just re-inserted: the deriver is told the same e-node identity (the node's source id) that
+            # the re-insert registered — not the id of the class the node lives in, which names the class's NATIVE node (a node
+            # that arrived through a union keeps its own source id; its symmetries would never be derived)
+            if len(c.args) >= 2:
+                ins_ids = [strip_role(h.role_of_operand(a)) for a in c.args[1:] if mir.op_place(a) is not None and h.local_ty(mir.op_place(a)["l"]) == "types::Id"]
+                src = ins_ids[-1] if ins_ids else None
+                for x in h.calls:
+                    if x.callee and x.callee.target in der and x.bb in h.reach(h.after(c.bb)) and not h.blocks[x.bb]["cleanup"]:
+                        got = [strip_role(h.role_of_operand(a)) for a in x.args[1:] if mir.op_place(a) is not None and h.local_ty(mir.op_place(a)["l"]) == "types::Id"]
+                        if src is not None and got:
+                            ctx.check(got[0] == src, "deriver-for-reinserted-node:" + C.fkey(h), "the self-symmetry derivation is run for the source id the re-insert registered",
+                                      "in %s the node is re-inserted with source id %s but the self-symmetry derivation is run for %s: for an e-node that came into its class through a union these differ, and the symmetries that node gains when a child becomes symmetric are never derived (what is known then depends on which class a union happened to keep)" % (C.short(hid), role_str(src)[:50], role_str(got[0])[:50]),
+                                      where_of(h, x.bb))
     ctx.floor("re-insert sites in handlers", n, 1)
     # the deriver compares name-free shapes and enumerates the group-compatible variants
     for did in der:
